@@ -5,6 +5,7 @@ import (
 	"flag"
 	"fmt"
 	"os"
+	"os/exec"
 	"path/filepath"
 	"sort"
 	"strings"
@@ -30,6 +31,8 @@ func main() {
 		os.Exit(cmdCheck(os.Args[2:]))
 	case "list":
 		os.Exit(cmdList(os.Args[2:]))
+	case "replay":
+		os.Exit(cmdReplay(os.Args[2:]))
 	default:
 		fmt.Fprintln(os.Stderr, "unknown command", os.Args[1])
 		os.Exit(2)
@@ -104,6 +107,7 @@ func cmdCheck(args []string) int {
 	evidence := fs.String("evidence", "", "evidence file to write (default /verif/evidence/<property>.json)")
 	verifDir := fs.String("verif", "/verif", "verif directory")
 	nocache := fs.Bool("nocache", false, "ignore the result cache")
+	noSelf := fs.Bool("noselftest", false, "thorough tier: skip the seeded-change self-test")
 	fs.Parse(args)
 	t0 := time.Now()
 	cacheDir = filepath.Join(*verifDir, ".cache")
@@ -239,6 +243,16 @@ func cmdCheck(args []string) int {
 	}
 	wg.Wait()
 	rep := buildReport(e, *prop, *tier, seed, keys, results, obls, *verifDir, time.Since(t0).Seconds(), *verbose)
+	if *tier == "thorough" && !*noSelf && *prop != "" && *only == "" && *repo == "/repo" {
+		st := selfTest(*prop, *verifDir)
+		if cov, ok := rep.Evidence["coverage"].(map[string]interface{}); ok {
+			cov["selftest"] = st
+		}
+		for _, l := range st.Lines {
+			rep.Lines = append(rep.Lines, l)
+		}
+		rep.Evidence["wall_s"] = time.Since(t0).Seconds()
+	}
 	evFile := *evidence
 	if evFile == "" && *prop != "" {
 		evFile = filepath.Join(*verifDir, "evidence", *prop+".json")
@@ -287,7 +301,7 @@ func reportLoadFailure(prop, verifDir, evidence, tier string, seed int, err erro
 	fmt.Printf("VIOLATION property=%s replay=%s obligation=<load> no-failing-input-found\n", prop, path)
 	ev := map[string]interface{}{"property_id": prop, "tier": tier, "seed": seed, "level": "proof",
 		"coverage": map[string]interface{}{"obligations": 1, "discharged": 0, "checker_cmd": "gverif check", "trusted_base": []string{}, "evaluations": 1, "distinct_nontrivial": 0, "explanation": "repository did not load: " + err.Error()},
-		"wall_s": time.Since(t0).Seconds(), "violations": 1}
+		"wall_s":   time.Since(t0).Seconds(), "violations": 1}
 	evFile := evidence
 	if evFile == "" && prop != "" {
 		evFile = filepath.Join(verifDir, "evidence", prop+".json")
@@ -434,17 +448,17 @@ func buildReport(e *Engine, prop, tier string, seed int, keys []string, results 
 	}
 	sort.Strings(solverList)
 	cov := map[string]interface{}{
-		"obligations":            nObl,
-		"discharged":             nDis,
-		"checker_cmd":            fmt.Sprintf("/verif/bin/gverif check --property %s --tier %s", prop, tier),
-		"trusted_base":           []string{"golang.org/x/tools v0.29.0 go/ssa", "z3 4.8.12", "z3 5.1.0", "cvc5 1.0.3", "/verif/engine VC generator"},
+		"obligations":              nObl,
+		"discharged":               nDis,
+		"checker_cmd":              fmt.Sprintf("/verif/bin/gverif check --property %s --tier %s", prop, tier),
+		"trusted_base":             []string{"golang.org/x/tools v0.29.0 go/ssa", "z3 4.8.12", "z3 5.1.0", "cvc5 1.0.3", "/verif/engine VC generator"},
 		"functions_under_contract": fnSumm,
-		"discharged_by":          solverList,
-		"solver_time_s":          solverSecs,
-		"vacuity_guards":         nVac,
-		"samples":                samples,
-		"known_findings_reported": len(knownSeen),
-		"lost_proofs":            len(losts),
+		"discharged_by":            solverList,
+		"solver_time_s":            solverSecs,
+		"vacuity_guards":           nVac,
+		"samples":                  samples,
+		"known_findings_reported":  len(knownSeen),
+		"lost_proofs":              len(losts),
 	}
 	rep.Evidence = map[string]interface{}{
 		"property_id": prop, "tier": tier, "seed": seed, "level": "proof", "coverage": cov,
@@ -562,4 +576,117 @@ func parseModel(out string) map[string]string {
 // tryReplay attempts to turn the solver model into a failing input of the real code (replay.go).
 func tryReplay(e *Engine, o *Obligation, path string) bool {
 	return replayObligation(e, o, path)
+}
+
+// SelfTest is the result of re-running the seeded property-breaking changes of one property (thorough tier).
+type SelfTest struct {
+	Seeds    int      `json:"seeds"`
+	Detected int      `json:"detected"`
+	Missed   []string `json:"missed"`
+	Rule     string   `json:"rule"`
+	Lines    []string `json:"-"`
+}
+
+// selfTest copies /repo to a scratch directory per seeded change of the property (/verif/seeded/<name>/patch.diff with
+// meta.json .property == prop), applies the change there, runs the quick check on the copy and records whether it
+// reports a violation. A missed seed is not a violation of the property; it is reported on a SELFTEST line and in the
+// evidence so that a weakened check is visible.
+func selfTest(prop, verifDir string) *SelfTest {
+	st := &SelfTest{Missed: []string{}, Rule: "each seeded change (written by a sub-agent from the property text alone; compiles and passes the 81 tests) is applied to a scratch copy of /repo and the quick check must report a violation"}
+	dirs, _ := filepath.Glob(filepath.Join(verifDir, "seeded", "*", "meta.json"))
+	sort.Strings(dirs)
+	exe, err := os.Executable()
+	if err != nil {
+		return st
+	}
+	for _, mf := range dirs {
+		b, err := os.ReadFile(mf)
+		if err != nil {
+			continue
+		}
+		var meta struct {
+			Property string `json:"property"`
+		}
+		if json.Unmarshal(b, &meta) != nil || meta.Property != prop {
+			continue
+		}
+		dir := filepath.Dir(mf)
+		name := filepath.Base(dir)
+		scratch, err := os.MkdirTemp("/var/tmp", "gverif-self-")
+		if err != nil {
+			continue
+		}
+		ok := func() bool {
+			defer os.RemoveAll(scratch)
+			if out, err := exec.Command("cp", "-r", "/repo/.", scratch+"/").CombinedOutput(); err != nil {
+				st.Lines = append(st.Lines, fmt.Sprintf("SELFTEST: seed=%s cannot copy /repo: %s", name, out))
+				return false
+			}
+			os.RemoveAll(filepath.Join(scratch, ".git"))
+			pf, err := os.Open(filepath.Join(dir, "patch.diff"))
+			if err != nil {
+				return false
+			}
+			defer pf.Close()
+			pc := exec.Command("patch", "-s", "-p1")
+			pc.Dir = scratch
+			pc.Stdin = pf
+			if out, err := pc.CombinedOutput(); err != nil {
+				st.Lines = append(st.Lines, fmt.Sprintf("SELFTEST: seed=%s patch does not apply: %s", name, strings.TrimSpace(string(out))))
+				return false
+			}
+			cmd := exec.Command(exe, "check", "--property", prop, "--tier", "quick", "--repo", scratch, "--evidence", os.DevNull, "--verif", filepath.Join(scratch, ".verif"))
+			out, _ := cmd.CombinedOutput()
+			return strings.Contains(string(out), "VIOLATION property="+prop)
+		}()
+		st.Seeds++
+		if ok {
+			st.Detected++
+		} else {
+			st.Missed = append(st.Missed, name)
+			st.Lines = append(st.Lines, fmt.Sprintf("SELFTEST: seed=%s property=%s NOT detected by the check (recorded in seeded/RESULTS.tsv and DESIGN.md section 13)", name, prop))
+		}
+	}
+	st.Lines = append(st.Lines, fmt.Sprintf("SELFTEST: property=%s seeded changes detected %d/%d", prop, st.Detected, st.Seeds))
+	return st
+}
+
+// cmdReplay prints a replay file and, when a generated Go test belongs to it, re-runs that test on the real code.
+// Exit 1 when the violation is confirmed again, 0 otherwise.
+func cmdReplay(args []string) int {
+	if len(args) < 1 {
+		fmt.Fprintln(os.Stderr, "usage: gverif replay <replay file>")
+		return 2
+	}
+	path := args[0]
+	b, err := os.ReadFile(path)
+	if err != nil {
+		fmt.Fprintln(os.Stderr, err)
+		return 2
+	}
+	fmt.Print(string(b))
+	base := strings.TrimSuffix(path, ".txt")
+	ovFile := base + "_overlay.json"
+	ob, err := os.ReadFile(ovFile)
+	if err != nil {
+		fmt.Println("\n(no generated test belongs to this obligation: the violation was reported without a failing input)")
+		return 0
+	}
+	var ov struct{ Replace map[string]string }
+	if json.Unmarshal(ob, &ov) != nil || len(ov.Replace) == 0 {
+		return 0
+	}
+	dir := ""
+	for k := range ov.Replace {
+		dir = filepath.Dir(k)
+	}
+	cmd := exec.Command("go", "test", "-overlay", ovFile, "-vet=off", "-count=1", "-timeout", "60s", "-run", "^TestGverifReplay$", ".")
+	cmd.Dir = dir
+	cmd.Env = append(os.Environ(), "GOFLAGS=-mod=mod", "GOPROXY=off", "GOSUMDB=off", "GOTOOLCHAIN=local")
+	out, _ := cmd.CombinedOutput()
+	fmt.Printf("\n--- re-run now in %s\n%s", dir, out)
+	if strings.Contains(string(out), "GVERIF-CONFIRMED") {
+		return 1
+	}
+	return 0
 }
